@@ -48,7 +48,7 @@ impl Prop for C04P {
         let mut v = Vec::new();
         match tier {
             Tier::Quick => {
-                for (pc, pr) in [(4, 4), (5, 3), (3, 5), (1, 5), (5, 1)] {
+                for (pc, pr) in [(4, 4), (5, 3), (3, 5), (1, 5), (5, 1), (5, 5), (2, 4), (4, 2)] {
                     for (s, e) in windows_nonempty(pc, pr) {
                         v.push(Recv::window(pc, pr, s, e).enc());
                     }
@@ -94,7 +94,7 @@ impl Prop for C04P {
     fn run_unit(&self, unit: &str, ctx: &mut Ctx) {
         let rd = Recv::parse(unit);
         let (c, r) = rd.size();
-        let cw_max = ctx.tier.pick(2, 5);
+        let cw_max = ctx.tier.pick(3, 5);
         let (s, e) = rd.rect();
         for op in ops_for(c, r, cw_max) {
             let pats: &[u8] = if matches!(op, Op::Sort(..)) { &[0, 1, 2, 3, 4] } else { &[0] };
@@ -162,7 +162,7 @@ impl Prop for C04P {
     }
     fn bound(&self, tier: Tier) -> String {
         tier.pick(
-            "parents 4x4, 5x3, 3x5, 1x5, 5x1 (all non-empty windows), nested windows inside the centre of a 5x5; copy_within rectangles up to 2x2",
+            "parents 4x4, 5x5, 5x3, 3x5, 2x4, 4x2, 1x5, 5x1 (all non-empty windows), views over a longer slice up to 4x4, nested windows inside the centre of a 5x5; copy_within rectangles up to 3x3",
             "all parents up to 5x5 (all non-empty windows), nested windows of 5x5, 4x5, 5x4 parents; all copy_within rectangles",
         )
         .into()
